@@ -106,6 +106,15 @@ def generate(seed: int, tier: str) -> Dict[str, Any]:
                 e["id"] = "nd%02d" % i
             world["episodes"] = (world["episodes"] + fam)[-14:]
             r.shuffle(world["episodes"])
+        if r.chance(0.25) and len(world["episodes"]) >= 2:
+            # the same episode id stored more than once (a replayed reflection write re-adds its deterministic id; an import run
+            # twice): copies of one or two episodes, identical or with other text/vector, dealt somewhere into the list
+            for _ in range(r.randint(1, 3)):
+                src = dict(r.choice(world["episodes"]))
+                if r.chance(0.5):
+                    src["text"] = " ".join(r.sample(E.VOCAB, 2))
+                    src["vec"] = "text"
+                world["episodes"].insert(r.randint(0, len(world["episodes"])), src)
         raw = E.valid_cfg(rng.stream("config"), ["t2"], p=0.5)
         raw.setdefault("t2", {}).setdefault("sim_threshold", r.choice([-1.0, -0.2, 0.0]))
         raw["t2"]["cache"] = {"enabled": False}
